@@ -895,7 +895,7 @@ func specLData(code uint8, l *cemi.LData) []byte {
 		w.put(uint(len(t.Data)), 8)
 		w.put(0, 1)
 		w.put(b2u(t.Numbered), 1)
-		w.put(uint(t.SeqNumber), 4)
+		w.put(uint(seqOnWire(t.Numbered, t.SeqNumber)), 4)
 		w.put(uint(t.Command), 4)    // APCI: high two bits end the TPCI octet, low two start the next
 		w.put(uint(t.Data[0])&63, 6) // only six bits of the first data octet exist on the wire
 		w.bytes(t.Data[1:])
@@ -903,10 +903,19 @@ func specLData(code uint8, l *cemi.LData) []byte {
 		w.put(0, 8)
 		w.put(1, 1)
 		w.put(b2u(t.Numbered), 1)
-		w.put(uint(t.SeqNumber), 4)
+		w.put(uint(seqOnWire(t.Numbered, t.SeqNumber)), 4)
 		w.put(uint(t.Command), 2)
 	}
 	return w.out
+}
+
+// seqOnWire: the four sequence bits of the transport-control octet; an unnumbered unit has no sequence
+// number, its bits are reserved zeros whatever the value's field holds
+func seqOnWire(numbered bool, seq uint8) uint8 {
+	if !numbered {
+		return 0
+	}
+	return seq & 15
 }
 
 func (r *run) c11Frame(m cemi.Message, l *cemi.LData) {
@@ -937,13 +946,23 @@ func (r *run) c11Frame(m cemi.Message, l *cemi.LData) {
 	d := decodeCemi(want)
 	op2 := "decc " + ktext.Hex(want) + " -"
 	r.emit(op2, d.String())
-	// what the frame carries: the first data octet has six bits on the wire
+	// what the frame carries: the first data octet has six bits on the wire, the sequence field four
+	// (none when the unit is unnumbered)
 	wantToks := toks
-	if a, ok := l.Data.(*cemi.AppData); ok && len(a.Data) > 0 && a.Data[0] > 63 {
-		save := a.Data[0]
-		a.Data[0] &= 63
+	switch a := l.Data.(type) {
+	case *cemi.AppData:
+		if len(a.Data) > 0 {
+			save, sq := a.Data[0], a.SeqNumber
+			a.Data[0] &= 63
+			a.SeqNumber = seqOnWire(a.Numbered, sq)
+			wantToks = ktext.Join(ktext.Cemi(m))
+			a.Data[0], a.SeqNumber = save, sq
+		}
+	case *cemi.ControlData:
+		sq := a.SeqNumber
+		a.SeqNumber = seqOnWire(a.Numbered, sq)
 		wantToks = ktext.Join(ktext.Cemi(m))
-		a.Data[0] = save
+		a.SeqNumber = sq
 	}
 	if d.class != "ok" || ktext.Join(d.toks) != wantToks {
 		r.violation("layout-decode", op2, "fields "+wantToks+" | decoder extracted "+d.String())
@@ -987,9 +1006,6 @@ func (r *run) c11(g *gen.G, budget int) {
 	for apci := 0; apci < 16; apci++ {
 		for seq := 0; seq < 16; seq++ {
 			for nb := 0; nb < 2; nb++ {
-				if nb == 0 && seq != 0 {
-					continue // an unnumbered unit has no sequence number
-				}
 				l := g.LData()
 				l.Info = nil
 				l.Data = &cemi.AppData{Numbered: nb == 1, SeqNumber: uint8(seq), Command: cemi.APCI(apci), Data: []byte{uint8(g.R.Intn(64))}}
@@ -1016,10 +1032,16 @@ func (r *run) c11(g *gen.G, budget int) {
 		}
 	}
 	// payload lengths 1..254, info lengths 0..255, corner addresses
-	for n := 1; n <= 254; n++ {
+	for n := 1; n <= 255; n++ {
 		l := g.LData()
 		l.Info = cemi.Info(g.Bytes(n))
-		d := g.Bytes(n)
+		dn := n
+		if n == 255 {
+			// the longest additional-info block; the payload stays within its own 1..254
+			dn = 254
+			r.classes["info-length-255"]++
+		}
+		d := g.Bytes(dn)
 		d[0] &= 63
 		l.Data = &cemi.AppData{Numbered: true, SeqNumber: uint8(n % 16), Command: cemi.APCI(n % 16), Data: d}
 		l.Source = cemi.IndividualAddr([]uint16{0, 1, 0x1101, 0x7fff, 0x8000, 0xffff}[n%6])
